@@ -222,13 +222,13 @@ theorem C02_node_span (t0 t : Val) (hwf : treeOk2 t = true) (hmono : PreorderMon
 on-the-fly form satisfies `wfStages6` and whose tweaked form `stage6` satisfies `treeOk2` and
 `PreorderMonotone`. -/
 theorem C02_node_span_pipeline (cfg : Cfg) (s : HashState) (t : Val) (ty : List Char) (e : Bool) (r : List Char)
-    (ln : Option Nat) (fs : List (List Char × Val)) (ht : onTheFly cfg t = .node ty e r ln fs)
-    (hwf : wfStages6 (onTheFly cfg t) = true) (hok : treeOk2 (stage6 (onTheFly cfg t)) = true)
-    (hmono : PreorderMonotone (entries [] [] (stage6 (onTheFly cfg t)))) :
-    ∀ m ∈ nodeMatches (flattenAst cfg s t).1, (posTypes (stage6 (onTheFly cfg t))).contains m.1 = true →
+    (ln : Option Nat) (fs : List (List Char × Val)) (ht : prep cfg t = .node ty e r ln fs)
+    (hwf : wfStages6 (prep cfg t) = true) (hok : treeOk2 (stage6 (prep cfg t)) = true)
+    (hmono : PreorderMonotone (entries [] [] (stage6 (prep cfg t)))) :
+    ∀ m ∈ nodeMatches (flattenAst cfg s t).1, (posTypes (stage6 (prep cfg t))).contains m.1 = true →
       GoodSpan m ∧ ∀ b, nodeBinding? m = some b → b.2.start ≤ b.2.stop := by
   rw [Paroxy.Props.C15.C15_flatten_tweaked cfg s t ty e r ln fs ht hwf]
-  exact C02_node_span (onTheFly cfg t) (stage6 (onTheFly cfg t)) hok hmono
+  exact C02_node_span (prep cfg t) (stage6 (prep cfg t)) hok hmono
 
 /-- Non-vacuity: a two-line module `if x:` / `    pass` (already tweaked). -/
 def sampleIf : Val :=
